@@ -331,6 +331,19 @@ func genDecl(r *hx.Rng, g *lineGen, usedKeys map[string]bool) {
 			o.kind = "[]" + b.name
 		}
 		o.isBool = b.name == "bool" && !o.slice
+		// the declaration route: NewGeneralOption(ptr), NewOption(&GeneralValue{ptr}) (same thing to the parser, also for
+		// *bool), or NewOption(user Value around a GeneralValue) — behind which a bool is NOT a flag (kind wbool)
+		switch r.Intn(10) {
+		case 0, 1, 2, 3:
+			o.route = "v"
+		case 4, 5:
+			o.route = "w"
+			if o.isBool {
+				o.kind, o.isBool = "wbool", false
+			}
+		default:
+			o.route = "g"
+		}
 	}
 	// names
 	mode := r.Intn(10) // 0-3 both, 4-6 single only, 7-9 name only
@@ -613,7 +626,7 @@ func (g *lineGen) rawFile(lines []string, junk bool) (string, bool) {
 	return out, true
 }
 
-var fxEntries = []string{"msg", "err", "iferr", "ifnil", "write"}
+var fxEntries = []string{"msg", "err", "iferr", "ifnil", "write", "cmdnone", "cmdbad"}
 var fxWriters = []string{"def", "out", "fail"}
 
 func genLine(r *hx.Rng) string {
@@ -723,6 +736,9 @@ func genLine(r *hx.Rng) string {
 				nm = hx.Hex([]byte(o.name))
 			}
 			fmt.Fprintf(&sb, " %d:%s:%s:%s", o.single, nm, o.kind, encList(o.defs))
+			if o.route != "" && o.kind != "wbool" {
+				sb.WriteString(":" + o.route)
+			}
 		}
 	}
 	if len(fileWords) > 0 {
